@@ -234,6 +234,8 @@ class HistoryScenario(explore.Scenario):
         w.adds = 0
         w.bus_serial = 3000
         w.texts = {}
+        w.rid_of = {}
+        w.shot = set()
         return w
 
     def close(self, w):
@@ -264,8 +266,15 @@ class HistoryScenario(explore.Scenario):
                 tag = w.adds
                 w.adds += 1
 
-                def cb(m, tag=tag):
+                oneshot = self.params.get('oneshot') and tag % 2 == 0
+
+                def cb(m, tag=tag, oneshot=oneshot):
                     w.hits.append(tag)
+                    if oneshot and tag in w.rid_of and tag not in w.shot:
+                        # a one-shot handler: it cancels its own rule from
+                        # inside the delivery
+                        w.shot.add(tag)
+                        conn.delMatch(w.rid_of[tag]).addBoth(lambda _: None)
                     if tag % 2 == 1:
                         raise RuntimeError('callback %d raises' % tag)
                 kw = {}
@@ -307,6 +316,7 @@ class HistoryScenario(explore.Scenario):
                                  'addMatch returned id %r which is still in '
                                  'use by a live rule' % (rid,)))
                 w.live[rid] = (ev[1], tag)
+                w.rid_of[tag] = rid
                 w.texts[rid] = msgs[0]['body'][0]
             elif ev[0] == 'del':
                 rid = ev[1]
@@ -335,6 +345,15 @@ class HistoryScenario(explore.Scenario):
                     m['body']))
                 want = sorted(tag for rid, (si, tag) in w.live.items()
                               if ref_match(SPECS[si], m))
+                # rules cancelled from inside their handlers: the harness
+                # plays the bus for the RemoveMatch calls they caused
+                for mm in w.cw.sent():
+                    if mm['fields'].get('member') == 'RemoveMatch':
+                        self._reply(w, mm['serial'])
+                for tag in list(w.shot):
+                    rid = w.rid_of.get(tag)
+                    if rid in w.live and w.live[rid][1] == tag:
+                        del w.live[rid]
                 if sorted(w.hits) != want:
                     live = {tag: SPECS[si] for rid, (si, tag)
                             in w.live.items()}
@@ -1028,6 +1047,11 @@ def run(ctx):
     explore.explore(ctx, HistoryScenario, {'max_adds': 3},
                     max_depth=5 if ctx.quick else 7,
                     label='add/remove/route histories')
+    explore.explore(ctx, HistoryScenario, {'max_adds': 3, 'oneshot': True},
+                    max_depth=5 if ctx.quick else 6,
+                    label='add/remove/route histories with one-shot '
+                          'handlers (they cancel their own rule from inside '
+                          'the delivery)')
     ctx.map(_task_text, [(2 if ctx.quick else 3, i, n) for i in range(n)])
     ctx.map(_task_argindex_router, [(i, n) for i in range(n)])
     ctx.map(_task_text, [('argindex', i, n) for i in range(n)])
